@@ -81,11 +81,16 @@ class DocActions(object):
       assert row_id in table.row_ids, \
           "docactions.[Bulk]UpdateRecord for non-existent record #%s" % row_id
 
+    # Generate the undo action (before changing anything, so that a failure part-way through can
+    # still be reverted).
+    undo_values = {col_id: [table.get_column(col_id).raw_get(r) for r in row_ids]
+                   for col_id in columns}
+    self._engine.out_actions.undo.append(
+        actions.BulkUpdateRecord(table_id, row_ids, undo_values).simplify())
+
     # Load the updated values.
-    undo_values = {}
     for col_id, values in columns.items():
       col = table.get_column(col_id)
-      undo_values[col_id] = [col.raw_get(r) for r in row_ids]
       for (row_id, value) in zip(row_ids, values):
         col.set(row_id, value)
 
@@ -98,10 +103,6 @@ class DocActions(object):
         # Values of a formula column only get set when replaying stored results (undo/redo). That
         # isn't a change that should fire the trigger formulas that depend on this column.
         self._engine.prevent_dependent_trigger_recalc(col.node, row_ids)
-
-    # Generate the undo action.
-    self._engine.out_actions.undo.append(
-        actions.BulkUpdateRecord(table_id, row_ids, undo_values).simplify())
 
     # Invalidate the updated rows, just for the columns that got changed (and, as always,
     # anything that depends on them).
